@@ -93,6 +93,7 @@ def gen(rng, tier):
             r0[pos] ^= 0x01
             yield line(h, level, ver, bytes(r0), "mac-does-not-verify")
         yield line(h, level, ver, R(key=b"someone else"), "mac-does-not-verify")
+        yield line(h, level, ver, pdu.drop_mac(R()), "mac-absent")                      # well-formed and honest in every other respect
         yield line(h, level, ver, reply(3 - ver, 1, 0, good), "other-pdu-version")
         yield line(h, level, ver, pdu.err_pdu(0x03, 0x102) if ver == 2 else tlv(0x200, pdu.err_pdu(0x203, 0x102)), "error-pdu")
         yield line(h, level, ver, R()[:-2], "malformed")
@@ -111,6 +112,7 @@ def gen(rng, tier):
             bad = good.clone(); bad.chains[-1].time += 1; yield aline(A(s=bad), "inconsistent-chains")
             r0 = bytearray(A()); r0[-1] ^= 1; yield aline(bytes(r0), "mac-does-not-verify")
             yield aline(A(key=b"someone else"), "mac-does-not-verify")
+            yield aline(pdu.drop_mac(A()), "mac-absent")
             if level != 0:
                 yield aline(A(s=aggregate(rng, h, 0)), "chains-computed-for-another-level")
             # the handle that came back is used again: what the server answers to the second request (id 2) decides
@@ -123,6 +125,10 @@ def gen(rng, tier):
         # the request
         login = rng.choice([b"anon", b"u", b"user-with-a-long-name-%d" % rng.randrange(1000), bytes(range(0x41, 0x41 + 40))])
         yield "q %s %d %d %s %s request" % (hx(h), level, ver, hx(login), hx(KEY))
+        # aggregator and extender both on the TCP transport with different credentials; the request the HA service forwards
+        yield "q2 %s %d %d %s %s %s %s request" % (hx(h), level, ver, hx(login), hx(KEY), hx(b"extender-user"), hx(b"extender-key"))
+        if i % 3 == 0:
+            yield "qh %s %d %s request" % (hx(h), level, hx(KEY))
     # refused before anything is sent: untrusted (deprecated) algorithm, levels out of range
     for _ in range(6 if not big else 40):
         ver = rng.choice([1, 2])
